@@ -320,6 +320,21 @@ Proof.
   repeat split; try assumption. now apply nodup_strb_NoDup.
 Qed.
 
+Lemma wf_fnames p : wf_pipeline p -> NoDup (map fname p).
+Proof.
+  unfold wf_pipeline, wf_pipelineb. rewrite !andb_true_iff. intros [[[[H1 H2] H3] H4] H5]. now apply nodup_strb_NoDup.
+Qed.
+
+Lemma fname_inj p f g : NoDup (map fname p) -> In f p -> In g p -> fname f = fname g -> f = g.
+Proof.
+  induction p as [|a p IH]; cbn; intros Hnd Hf Hg He; [destruct Hf|].
+  inversion Hnd as [|? ? Hn Hd]; subst.
+  destruct Hf as [->|Hf], Hg as [->|Hg]; try reflexivity.
+  - exfalso. apply Hn. rewrite He. now apply in_map.
+  - exfalso. apply Hn. rewrite <- He. now apply in_map.
+  - now apply IH.
+Qed.
+
 Lemma wf_func_parts f : wf_func f = true ->
   outs f <> [] /\ (forall k, ahas (bound f) k = true -> aget (dflt f) k = None).
 Proof.
